@@ -17,6 +17,9 @@ func init() {
 // not carry state from one call into the next
 var vC08Prepared HybridSearch
 
+// vC08Meta: vStoreSearchCheck also runs metadata-only queries (set by the harnesses that can afford them)
+var vC08Meta bool
+
 func vStoreSearchCheck(s *PersistentHybridIndex, live []vStoreDoc, everAdded map[uint32]bool, ref HybridSearchIndex, label string) {
 	if vC08Prepared != nil {
 		rp, ep := vC08Prepared.Execute()
@@ -56,6 +59,21 @@ func vStoreSearchCheck(s *PersistentHybridIndex, live []vStoreDoc, everAdded map
 	vAssert(len(rr2) == len(ids2), label+"-same-id-set-as-in-memory-index-under-threshold")
 	for _, x := range rr2 {
 		vAssert(vContains(ids2, x.ID), label+"-same-id-set-as-in-memory-index-under-threshold")
+	}
+	if vC08Meta && s.config.MetadataIndexTemplate != nil {
+		// metadata-only queries (a filter list, filter groups): every live document carries "c"; nothing that was never
+		// added — e.g. the document of a refused Add — may show up
+		rm, e6 := s.NewSearch().WithMetadata(Exists("c")).WithK(10).Execute()
+		rg, e7 := s.NewSearch().WithMetadataGroups(&FilterGroup{Filters: []Filter{Eq("c", "x")}, Logic: AND}, &FilterGroup{Filters: []Filter{Ne("c", "x")}, Logic: AND}).WithK(10).Execute()
+		vAssert(e6 == nil && e7 == nil, label+"-search-ok")
+		for _, got := range [][]uint32{vIDsOfHybrid(rm), vIDsOfHybrid(rg)} {
+			for _, id := range got {
+				vAssert(everAdded[id], label+"-no-never-added-document-by-metadata")
+			}
+			for _, d := range live {
+				vAssert(vContains(got, d.id), label+"-acknowledged-document-visible-by-metadata")
+			}
+		}
 	}
 	if s.config.TextIndexTemplate != nil {
 		rt, e3 := s.NewSearch().WithText("fox").WithK(10).Execute()
@@ -264,8 +282,17 @@ func H_C08_after_flush() {
 		live = append(live, d)
 		ever[d.id] = true
 	}
+	vC08Meta = true
+	defer func() { vC08Meta = false }()
 	add(vStoreDocs[0])
 	add(vStoreDocs[1])
+	switch vChoose("refused_add", 3) { // an Add the store refuses (valid text and metadata, wrong vector dimension) leaves nothing behind
+	case 1:
+		vAssert(s.AddWithID(77, []float32{1, 2}, "fox", map[string]interface{}{"c": "x"}) != nil, "add-with-wrong-dimension-refused")
+	case 2:
+		_, aerr := s.Add([]float32{1, 2}, "fox", map[string]interface{}{"c": "x"})
+		vAssert(aerr != nil, "add-with-wrong-dimension-refused")
+	}
 	switch vChoose("before_flush", 3) {
 	case 1: // remove the second document again
 		vAssert(s.Remove(vStoreDocs[1].id) == nil && ref.Remove(vStoreDocs[1].id) == nil, "remove-ok")
@@ -286,7 +313,19 @@ func H_C08_after_flush() {
 	} else {
 		vStoreSearchCheck(s, live, ever, ref, "after-flush")
 	}
-	add(vStoreDocs[2])
+	if vChoose("later_add_with_automatic_id", 2) == 1 {
+		d := vStoreDocs[2]
+		nodeIDCounter = 2000 // (a native replay process has handed out ids before: keep clear of the explicit ones)
+		id, aerr := s.Add([]float32{d.vec}, d.text, map[string]interface{}{"c": d.c})
+		vAssert(aerr == nil, "add-ok")
+		vAssert(!ever[id] && id != 0, "automatic-id-is-new")
+		d.id = id
+		vAssert(ref.AddWithID(d.id, []float32{d.vec}, "", nil) == nil, "reference-add-ok")
+		live = append(live, d)
+		ever[d.id] = true
+	} else {
+		add(vStoreDocs[2])
+	}
 	for i := 0; i < 3; i++ {
 		vStoreSearchCheck(s, live, ever, ref, "after-later-add")
 	}
